@@ -467,7 +467,10 @@ def charstring_positions(ctx):
     ctx.require(len(rvl) == 1 and match(core(rvl[0][0]), ('field', SELF, 'len')), ln, 'len', 'len() = the stored number of characters', 'len() is %s' % [show_in(ln, v)[:60] for v, _ in rvl])
     ie = ctx.body(CSX + 'is_empty')
     rvi = ret_values(ie)
-    ctx.require(len(rvi) == 1 and match(core(rvi[0][0]), ('bin', 'Eq', ('field', SELF, 'len'), Const(0))), ie, 'is-empty', 'is_empty() = (len == 0)',
+    # (the run-length table is empty exactly when there is no character: every run has a count of at least one, R-C16-10 run_length_table)
+    ctx.require(len(rvi) == 1 and (match(core(rvi[0][0]), ('bin', 'Eq', ('field', SELF, 'len'), Const(0))) or
+                                   match(core(rvi[0][0]), Call('Vec::is_empty', ('field', SELF, 'rle_cluster_lengths'))) or
+                                   match(core(rvi[0][0]), ('bin', 'Eq', Call('Vec::len', ('field', SELF, 'rle_cluster_lengths')), Const(0)))), ie, 'is-empty', 'is_empty() = (len == 0)',
                 'is_empty() is %s' % [show_in(ie, v)[:60] for v, _ in rvi])
     nw = ctx.body(CSX + 'new')
     rvn = [v for v, _ in ret_values(nw) if peel(v)[0] == 'agg']
@@ -580,8 +583,9 @@ def run_length_table(ctx):
     inits = [core(v) for s_, v in local_defs(e, cnt) if cfg.dominates(e, s_.bb, lps[0].header)]
     ctx.require(len(inits) == 1 and match(inits[0], Const(1)), e, 'rle-init', 'the first run starts with count 1', 'initial count: %s' % inits)
     d = ctx.body('utils::run_length_decode')
-    outs = state_locals(d, r'^std::vec::Vec<T>$')
-    segs = seq_of_var(ctx.facts, d, outs[0]) if len(outs) == 1 else None
+    from analysis.seq import seq_of as _seq_of
+    rvd = ret_values(d)
+    segs = _seq_of(ctx.facts, d, rvd[0][0]) if len(rvd) == 1 else None
     ok = segs is not None and len(segs) == 1 and segs[0].kind == 'nest' and not segs[0].conds and match(core(segs[0].src), ('arg', 1, ANY)) and len(segs[0].inner) == 1
     if ok:
         from rules.common import range_bounds
@@ -601,3 +605,73 @@ def run_length_table(ctx):
 def r10(ctx):
     charstring_positions(ctx)
     run_length_table(ctx)
+
+
+@rule('C16', 'R-C16-11', 'T13 PAIR (the dispatcher hands the configuration through)',
+      'windows::windows calls char / byte once per configuration with the limits and the segmentation flag OF THE CONFIGURATION and returns their result '
+      'as it is: an error (a character that cannot fit, an impossible configuration) is not retried with other settings -- a retry in code-point mode '
+      'returns windows whose boundaries split the grapheme clusters the caller asked for')
+def r11(ctx):
+    b = ctx.body(W + 'windows')
+    bodies = [b] + closures_in(ctx, b)
+    want = {'windows::char': 'Character', 'windows::byte': 'Bytes'}
+    n = 0
+    for x in bodies:
+        for t in x.calls(r'windows::(char|byte)$'):
+            n += 1
+            name = norm_path(t.callee_res())
+            var = want.get(name)
+            args = [core(resolve(ctx, x, sym(x, a))) for a in t.args]
+            ok = len(args) == 4 and all(match(args[i + 1], ('field', ('variant', ('arg', 2, ANY), var), i)) for i in range(3))
+            ctx.require(x is b and ok, x, 'dispatch-args|' + name.rsplit('::', 1)[-1], '%s is called with the three fields of WindowConfig::%s' % (name, var),
+                        '%s is called with (%s) (line %d): not the limits / segmentation flag of the configuration' % (
+                            name, ', '.join(show_in(x, a)[:30] for a in args[1:]), t.span['line']), t.span)
+    if n < 2:
+        raise AnchorMissing('calls of windows::char and windows::byte in windows::windows (found %d)' % n)
+    ctx.require(n == 2, b, 'dispatch-once', 'char and byte are each called once', 'char / byte are called %d times in the dispatcher (a second attempt with other settings?)' % n)
+    for v, blk in ret_values(b):
+        c = peel(v)
+        if c[0] == 'agg':
+            continue
+        ok = c[0] == 'call' and re.search(r'windows::(char|byte)$', c[1]) is not None
+        ctx.require(ok, b, 'dispatch-result', 'the result of char / byte is returned as it is (line %d)' % b.blocks[blk].term.span['line'],
+                    'the dispatcher returns %s: the outcome of char / byte is post-processed (an error replaced by another attempt)' % show_in(b, v)[:100], b.blocks[blk].term.span)
+
+
+def resolve(ctx, body, t):
+    """captured variables of a closure of windows::windows, seen from the dispatcher"""
+    if body.kind == 'Closure':
+        from rules.common import resolve_upvars
+        try:
+            return resolve_upvars(ctx, body, t)
+        except Exception:
+            return t
+    return t
+
+
+@rule('C16', 'R-C16-12', 'T13 PAIR (the Python view of a window)',
+      'PyWindow::from copies ctx_start / window_start / window_end / ctx_end and the context string of the Window field by field, the string '
+      'untouched (no trim / replace / case change): what Python sees is exactly the context slice')
+def r12(ctx):
+    cands = [b for b in ctx.facts.bodies if b.kind != 'Closure' and b.file() == 'src/windows.rs' and b.path.endswith('::from') and 'PyWindow' in str(b.impl_self)]
+    if len(cands) != 1:
+        raise AnchorMissing('impl From<Window> for PyWindow (found %d)' % len(cands))
+    b = cands[0]
+    rv = ret_values(b)
+    ok = len(rv) == 1 and peel(rv[0][0])[0] == 'agg'
+    if not ok:
+        raise AnchorMissing('PyWindow::from: the struct literal it returns')
+    v = peel(rv[0][0])
+    for name in ('ctx_start', 'window_start', 'window_end', 'ctx_end'):
+        f_ = agg_field(ctx.facts, v, name)
+        ctx.require(f_ is not None and match(core(f_), ('field', ('arg', 1, ANY), name)), b, 'py-field|' + name, 'PyWindow.%s = window.%s' % (name, name),
+                    'PyWindow.%s is %s' % (name, show_in(b, f_)[:60] if f_ is not None else 'missing'))
+    st = agg_field(ctx.facts, v, 'str')
+    chain_ = []
+    cur = st
+    while isinstance(cur, tuple) and cur and cur[0] == 'call' and cur[2]:
+        chain_.append(cur[1].rsplit('::', 1)[-1])
+        cur = cur[2][0]
+    ok = st is not None and match(core(cur), ('field', ('arg', 1, ANY), 'str')) and all(n_ in ('to_string', 'to_owned', 'into', 'from', 'clone', 'deref', 'as_ref', 'borrow') for n_ in chain_)
+    ctx.require(ok, b, 'py-field|str', 'PyWindow.str = window.str, copied as it is',
+                'PyWindow.str is %s: the reported string is not the context slice' % (show_in(b, st)[:80] if st is not None else 'missing'))
